@@ -180,26 +180,4 @@ theorem cumulant_real (C : Vector (Mat ℂ d d) N) (hH : ∀ i, (Spec.basisOf C 
 example : Spec.pauliBasis 0 = Spec.invSqrt2 • (1 : Matrix (Fin 2) (Fin 2) ℂ) := by
   simp [Spec.pauliBasis, Spec.sigma, Matrix.one_fin_two]
 
-/-- **Source shape.**  The branch selector, the shortcut's statements, the eight contraction
-strings with their signs and the `/ 2` of the general branch, and the operand order of the
-contractions are pinned to the current source text. -/
-theorem cumulant_source_shape :
-    Gen.cumulantShortcutTest = "d == 2 and pulse.basis.btype in ('Pauli', 'GGM') and (pulse.basis == Basis.pauli(1))" ∧
-    Gen.cumulantShortcutBody = "cumulant_function = np.zeros(decay_amplitudes.shape, decay_amplitudes.dtype) ; diag_mask = np.zeros((N, N), dtype=bool) ; diag_mask[1:, 1:] = ~np.eye(N - 1, dtype=bool) ; cumulant_function[..., diag_mask] = decay_amplitudes.swapaxes(-1, -2)[..., diag_mask] ; diag_deque = deque((False, True, True)) ; for i in range(1, N): diag_idx = [False] + list(diag_deque) cumulant_function[..., i, i] = -decay_amplitudes[..., diag_idx, diag_idx].sum(axis=-1) diag_deque.rotate() ; if second_order: cumulant_function[..., 1:, 1:] -= frequency_shifts[..., 1:, 1:] cumulant_function[..., 1:, 1:] += frequency_shifts[..., 1:, 1:].swapaxes(-1, -2)" ∧
-    Gen.cumulantGeneralBody = "traces = pulse.basis.four_element_traces ; cumulant_function = -(+oe.contract('...kl,klji->...ij', decay_amplitudes, traces, backend='sparse') - oe.contract('...kl,kjli->...ij', decay_amplitudes, traces, backend='sparse') - oe.contract('...kl,kilj->...ij', decay_amplitudes, traces, backend='sparse') + oe.contract('...kl,kijl->...ij', decay_amplitudes, traces, backend='sparse')) / 2 ; if second_order: cumulant_function -= (+oe.contract('...kl,klji->...ij', frequency_shifts, traces, backend='sparse') - oe.contract('...kl,lkji->...ij', frequency_shifts, traces, backend='sparse') - oe.contract('...kl,klij->...ij', frequency_shifts, traces, backend='sparse') + oe.contract('...kl,lkij->...ij', frequency_shifts, traces, backend='sparse')) / 2" ∧
-    [Gen.numeric_calculate_cumulant_function_0_subscripts,
-      Gen.numeric_calculate_cumulant_function_1_subscripts,
-      Gen.numeric_calculate_cumulant_function_2_subscripts,
-      Gen.numeric_calculate_cumulant_function_3_subscripts,
-      Gen.numeric_calculate_cumulant_function_4_subscripts,
-      Gen.numeric_calculate_cumulant_function_5_subscripts,
-      Gen.numeric_calculate_cumulant_function_6_subscripts,
-      Gen.numeric_calculate_cumulant_function_7_subscripts]
-      = ["...kl,klji->...ij", "...kl,kjli->...ij", "...kl,kilj->...ij", "...kl,kijl->...ij",
-         "...kl,klji->...ij", "...kl,lkji->...ij", "...kl,klij->...ij", "...kl,lkij->...ij"] ∧
-    Gen.numeric_calculate_cumulant_function_0_args = ["decay_amplitudes", "traces"] ∧
-    Gen.numeric_calculate_cumulant_function_4_args = ["frequency_shifts", "traces"] ∧
-    Model.fourElementTracesSubscripts = "iab,jbc,kcd,lda->ijkl" :=
-  ⟨rfl, rfl, rfl, rfl, rfl, rfl, rfl⟩
-
 end FFVerif.C09
